@@ -346,6 +346,11 @@ def check_parse(params):
     # value semantics is the subject of ops/ (decided at 64 bits there); here only the grouping matters, and
     # 64-bit multiplier/divider circuits nested two deep do not finish.  Typing of the result follows C.
     hard = {"*", "/", "%"} & {s for k, s in items if k == "op"}
+    # guard/ skeletons: the divisor is pinned to zero and the REAL / and % run, so that a division by zero on the side
+    # C does not evaluate (0 && 1/0, 1 ? 1 : 1/0) is seen to be harmless
+    zero = params.get("zero") or []
+    if zero:
+        hard = set()
     ufs = {}
 
     def uf(op, ku, x, y):
@@ -389,7 +394,7 @@ def check_parse(params):
             return r
 
         try:
-            leaves = bvsem.explore(run, [], max_leaves=128)
+            leaves = bvsem.explore(run, [vars_[n] == 0 for n in zero], max_leaves=128)
         except (bvsem.Inconclusive, npshim.Unmodelled) as e:
             res.update(verdict="inconclusive", detail="%s: %s" % (type(e).__name__, e), queries=bvsem.Stats.queries,
                        solver_s=bvsem.Stats.solver_s, cpu_s=time.process_time() - t0)
@@ -925,6 +930,22 @@ def obligations(tier, known):
             obs.append(Ob(id="parse/%s/%s" % (sid, "".join(k[0] for k in ks)), kind="fn", module=__name__,
                           func="check_parse", params=dict(items=items, kinds=ks, timeout_ms=tmo, regions=regions),
                           twin=False, group="parse", timeout=tmo / 1000 * 6))
+    Vn = lambda i: ("val", "v%d" % i)
+    Q, C = ("op", "?"), ("op", ":")
+    for d in ("/", "%"):
+        guards = [("and", [Vn(0), ("op", "&&"), Vn(1), ("op", d), Vn(2)], ["v2"]),
+                  ("or", [Vn(0), ("op", "||"), Vn(1), ("op", d), Vn(2)], ["v2"]),
+                  ("and-paren", [Vn(0), ("op", "&&"), ("punc", "("), Vn(1), ("op", d), Vn(2), ("op", "+"), Vn(3), ("punc", ")")], ["v2"]),
+                  ("tern-else", [Vn(0), Q, Vn(1), C, Vn(2), ("op", d), Vn(3)], ["v3"]),
+                  ("tern-then", [Vn(0), Q, Vn(1), ("op", d), Vn(2), C, Vn(3)], ["v2"]),
+                  ("left-and", [Vn(0), ("op", d), Vn(1), ("op", "&&"), Vn(2)], ["v1"])]
+        for gid, items, zero in guards:
+            n = sum(1 for k, _ in items if k == "val")
+            kindsets = [["i64"] * n, ["u64"] * n] if tier == "quick" else [list(ks) for ks in it.product(KINDS, repeat=n)]
+            for ks in kindsets:
+                obs.append(Ob(id="guard/%s%s/%s" % (gid, {"/": "-div", "%": "-rem"}[d], "".join(k[0] for k in ks)), kind="fn",
+                              module=__name__, func="check_parse", params=dict(items=items, kinds=ks, timeout_ms=tmo, regions=regions, zero=zero),
+                              twin=False, group="guard", timeout=tmo / 1000 * 6))
     obs += _lit_obligations(tier, regions)
     return obs
 
